@@ -16,6 +16,7 @@ from sa.rules.util import (
     iter_body_nodes,
     own_methods,
     qual,
+    reads_of_self,
 )
 
 LEVEL_TEXT["C01"] = (
@@ -653,3 +654,76 @@ def r01i(ctx):
                     ctx.bad(cid, A.module.loc(node), f"{K.qual} inherits {A.qual}.{name}, which reads `self.{a}` - a parameter of {A.name} that {K.name} (parameters {sorted(kp)[:8]}...) neither declares nor defines: the rule raises AttributeError for this class when it fires")
     ctx.ok("reads of ancestor parameters in inherited methods", "", f"{n} reads examined")
     ctx.floor("reads of ancestor parameters in inherited methods", n, 20)
+
+
+# (class, parameter) -> reason the parameter need not be consulted when the node is replaced by an operation on its input
+R01J_EXCEPTIONS = {
+    ("_shuffle.ShuffleBase", "partitioning_index"): "which key the rows were routed by is irrelevant for a reduction over all rows",
+    ("_expr.AssignAlign", "value"): "the assigned column is not among the selected ones (the guard compares `column` with the selection): the assignment as a whole is dropped",
+    ("_shuffle.ShuffleBase", "ignore_index"): "only the index labels differ; the reductions moved below the shuffle do not read them",
+    ("_shuffle.ShuffleBase", "index_shuffle"): "which key the rows were routed by is irrelevant for a reduction over all rows",
+    ("_shuffle.SortValues", "ignore_index"): "nsmallest / nlargest keep the original index labels, as sort_values(...).head() does",
+    ("_shuffle.SortValues", "sort_function_kwargs"): "only read together with sort_function, which the guard requires to be None",
+    ("_shuffle.SetIndex", "user_divisions"): "head / tail of the frame are taken before the index is set; divisions only steer the partitioning",
+    ("_shuffle.SetIndex", "ascending"): "not settable through set_index",
+    ("_shuffle.SetIndex", "append"): "KF02: `append` is dropped by two of three lowering paths anyway (recorded finding); the head / tail short-cut follows them",
+}
+
+
+@rule(
+    "R01j",
+    ["C01", "C02", "C11"],
+    """A NODE IS ONLY REPLACED BY WHAT ALL ITS PARAMETERS ALLOW: a rule that answers `parent(self)` with an expression built on the
+    INPUTS of self - self disappears from the plan (sort_values + head -> nsmallest, a reduction moved below a shuffle, a
+    projection moved below astype) - must have looked at every result-affecting parameter of self, in the replacement or in the
+    guards of that path (locals followed). A parameter it never reads (na_position, a custom sort function) is silently
+    treated as its default.""",
+)
+def r01j(ctx):
+    from sa.rules.r10 import KNOBS
+    from sa.rules.r11 import _drops_self
+
+    model = ctx.model
+    n = 0
+    for c, mem in own_methods(model, "_simplify_up"):
+        fn = mem.node
+        try:
+            params = [p for p in model.parameters(c) if p not in KNOBS and p != "frame" and not p.startswith("_")]
+        except AnalysisError:
+            continue
+        if not params:
+            continue
+        defs = flow.Defs(fn)
+        for i, p in enumerate(flow.returns(fn)):
+            v = p.stmt.value
+            if v is None or (isinstance(v, ast.Constant) and v.value is None):
+                continue
+            if not _drops_self(v) or "type(self)" in ast.unparse(v):
+                continue
+            n += 1
+            def via_defs(e, at, depth=0, seen=None):
+                """parameters read by e, following the definitions of the locals it mentions (all that may reach)"""
+                seen = seen if seen is not None else set()
+                out = reads_of_self(model, c, e, depth=1)
+                if depth < 4:
+                    for nm in (x for x in ast.walk(e) if isinstance(x, ast.Name) and isinstance(x.ctx, ast.Load)):
+                        for d in defs.reaching(nm.id, at):
+                            if d.value is not None and id(d.value) not in seen:
+                                seen.add(id(d.value))
+                                out |= via_defs(d.value, d.stmt if isinstance(d.stmt, ast.stmt) else at, depth + 1, seen)
+                return out
+
+            reads = via_defs(v, p.stmt)
+            for t, pol in flow.facts(p):
+                reads |= via_defs(t, p.stmt)
+            missing = [q for q in params if q not in reads]
+            cid = f"{qual(c, fn)}#return{i}:replaced-node-parameters"
+            open_ = [q for q in missing if (c.qual, q) not in R01J_EXCEPTIONS]
+            for q in missing:
+                if (c.qual, q) in R01J_EXCEPTIONS:
+                    ctx.exempt(f"{cid}:{q}", c.module.loc(p.stmt), R01J_EXCEPTIONS[(c.qual, q)])
+            if open_:
+                ctx.bad(cid, c.module.loc(p.stmt), f"`return {unparse(v)[:80]}` removes this {c.name} node from the plan without ever reading its parameter(s) {open_}: whatever the user set there is ignored on this path")
+            elif not missing:
+                ctx.ok(cid, c.module.loc(p.stmt), "all result-affecting parameters consulted")
+    ctx.floor("rules that replace their own node", n, 5)
